@@ -7,6 +7,7 @@ import (
 	"encoding/json"
 	"fmt"
 	"io"
+	"net"
 	"os"
 	"os/exec"
 	"path/filepath"
@@ -14,6 +15,7 @@ import (
 	"sort"
 	"strconv"
 	"strings"
+	"sync"
 	"time"
 
 	"connectrpc.com/conformance/internal"
@@ -122,10 +124,19 @@ func c04Peer(args []string) int {
 	in := os.Stdin // unbuffered: never read ahead of the request being served
 	out := cout
 	answered := 0
+	// "#late-last": "<n>" in tamper.json — the n-th (= last) request of the run is made by the proxy
+	// itself as an HTTP/1.1 request with a chunked body that announces a trailer; the proxy reports a
+	// matching result at once (the previous case's real result: the cases are alike) and finishes the
+	// request 400 ms later.  The reference server complains about request trailers only when the
+	// handler has returned — by then the runner has told it to stop: feedback during the shutdown.
+	lateLast, _ := strconv.Atoi(tamper["#late-last"])
+	var lastResult *conformancev1.ClientResponseResult
+	var late sync.WaitGroup
 	for k < 0 || answered < k {
 		var req conformancev1.ClientCompatRequest
 		if err := internal.ReadDelimitedMessage(in, &req, "runner", time.Hour, 16<<20); err != nil {
 			// stdin closed: let the reference client finish, then end as scripted
+			late.Wait()
 			cin.Close()
 			child.Wait()
 			if stop == "serve3" {
@@ -136,7 +147,14 @@ func c04Peer(args []string) int {
 		kind := tamperOf(req.TestName)
 		c04PeerTamper(&req, kind)
 		var resp conformancev1.ClientCompatResponse
-		if key, ok := strings.CutPrefix(kind, "err:"); ok && len(key) == 1 {
+		if lateLast > 0 && answered == lateLast-1 && lastResult != nil && c04PeerLateTrailer(&req, &late) {
+			resp.TestName = req.TestName
+			resp.Result = &conformancev1.ClientCompatResponse_Response{Response: lastResult}
+			if f, err := os.OpenFile(logPath, os.O_APPEND|os.O_CREATE|os.O_WRONLY, 0o644); err == nil {
+				f.WriteString("~" + req.TestName + "\n")
+				f.Close()
+			}
+		} else if key, ok := strings.CutPrefix(kind, "err:"); ok && len(key) == 1 {
 			// the client reports an error of its own, with that message; no request is made
 			resp.TestName = req.TestName
 			resp.Result = &conformancev1.ClientCompatResponse_Error{Error: &conformancev1.ClientErrorResult{Message: c04Msgs[key[0]]}}
@@ -157,6 +175,9 @@ func c04Peer(args []string) int {
 			if err := internal.ReadDelimitedMessage(out, &again, "reference client", time.Minute, 16<<20); err != nil {
 				return 4
 			}
+		}
+		if r := resp.GetResponse(); r != nil {
+			lastResult = r
 		}
 		if err := internal.WriteDelimitedMessage(os.Stdout, &resp); err != nil {
 			return 4
@@ -229,6 +250,46 @@ func c04Peer(args []string) int {
 	return 0
 }
 
+// c04PeerLateTrailer starts the request of req as an HTTP/1.1 request with a chunked body announcing
+// a trailer, waits until the server has it in hand, and finishes it (empty body, the trailer) 400 ms
+// later in the background.  false: the request could not be started.
+func c04PeerLateTrailer(req *conformancev1.ClientCompatRequest, late *sync.WaitGroup) bool {
+	conn, err := net.Dial("tcp", net.JoinHostPort(req.Host, strconv.Itoa(int(req.Port))))
+	if err != nil {
+		return false
+	}
+	var head strings.Builder
+	head.WriteString("POST /connectrpc.conformance.v1.ConformanceService/Unary HTTP/1.1\r\n")
+	head.WriteString("Host: " + req.Host + "\r\n")
+	head.WriteString("Content-Type: application/proto\r\n")
+	head.WriteString("Connect-Protocol-Version: 1\r\n")
+	head.WriteString("Transfer-Encoding: chunked\r\n")
+	head.WriteString("Trailer: X-Late\r\n")
+	for _, hdr := range req.RequestHeaders {
+		for _, val := range hdr.Value {
+			head.WriteString(hdr.Name + ": " + val + "\r\n")
+		}
+	}
+	head.WriteString("\r\n")
+	if _, err := io.WriteString(conn, head.String()); err != nil {
+		conn.Close()
+		return false
+	}
+	time.Sleep(300 * time.Millisecond) // the server has the request in hand
+	late.Add(1)
+	go func() {
+		defer late.Done()
+		defer conn.Close()
+		time.Sleep(400 * time.Millisecond)
+		if _, err := io.WriteString(conn, "0\r\nX-Late: 1\r\n\r\n"); err != nil {
+			return
+		}
+		_ = conn.SetReadDeadline(time.Now().Add(5 * time.Second))
+		_, _ = io.ReadAll(io.LimitReader(conn, 1<<16))
+	}()
+	return true
+}
+
 // c04PeerTamper alters what the reference server is told to expect for this request (the x-expect-…
 // headers the runner added), so that the reference client's perfectly normal request deviates.
 func c04PeerTamper(req *conformancev1.ClientCompatRequest, kind string) {
@@ -271,6 +332,10 @@ type c04LoopIn struct {
 	// client reports an error of its own for case i whose message is c04Msgs[key] (empty, blank, many
 	// lines, format verbs, long …)
 	Tamper []string `json:"tamper,omitempty"`
+	// LateLast: the last request of the run (its number = LateLast) is made by the proxy itself with a
+	// chunked body announcing a trailer and finished 400 ms after the (matching) result was reported:
+	// the reference server's complaint comes during its graceful shutdown
+	LateLast int `json:"lateLast,omitempty"`
 	// Unanswered: stops readexit0 / readexit3 — how many further requests are read but never answered
 	Unanswered int `json:"unanswered,omitempty"`
 }
@@ -283,6 +348,7 @@ type c04LoopOut struct {
 	Answered    []string   `json:"answered"`
 	Blind       []string   `json:"blind"`
 	Read        []string   `json:"read"`
+	Late        []string   `json:"late,omitempty"`
 	Total       int        `json:"total"`
 	Passed      int        `json:"passed"`
 	Failed      int        `json:"failed"`
@@ -416,6 +482,12 @@ func c04RunLoop(c *gen.Ctx, in c04LoopIn) c04LoopOut {
 	}
 	defer os.RemoveAll(dir)
 	out := c04LoopOut{Total: -1, Answered: []string{}, Blind: []string{}, Read: []string{}, FailedNames: []string{}, InfoNames: []string{}}
+	if in.LateLast > 0 && len(in.Tamper) == 0 {
+		data, _ := json.Marshal(map[string]string{"#late-last": strconv.Itoa(in.LateLast)})
+		if err := os.WriteFile(filepath.Join(dir, "tamper.json"), data, 0o644); err != nil {
+			panic(err)
+		}
+	}
 	if len(in.Tamper) != 0 {
 		tm := map[string]string{}
 		for i, t := range in.Tamper {
@@ -473,6 +545,10 @@ func c04RunLoop(c *gen.Ctx, in c04LoopIn) c04LoopOut {
 			if strings.HasPrefix(n, "?") {
 				out.Read = append(out.Read, n[1:])
 				continue
+			}
+			if strings.HasPrefix(n, "~") {
+				n = n[1:]
+				out.Late = append(out.Late, n)
 			}
 			if strings.HasPrefix(n, "!") {
 				n = n[1:]
@@ -685,6 +761,13 @@ func c04LoopGen(c *gen.Ctx) {
 				addX(in)
 			}
 		}
+	}
+	// feedback during the reference server's graceful shutdown, through the real Run: the last request of
+	// the run carries a request trailer and is finished after its (matching) result was reported
+	addX(c04LoopIn{Layout: 1, MaxServers: 1, Cases: []string{"ru", "ru"}, K: -1, Stop: "serve", LateLast: 2, Quiet: r.Bool()})
+	if c.Thorough() {
+		addX(c04LoopIn{Layout: 1, MaxServers: 1, Cases: []string{"ru", "rf", "rk"}, K: -1, Stop: "serve", LateLast: 3})
+		addX(c04LoopIn{Layout: 1, MaxServers: 1, Cases: []string{"ru", "ru", "ru"}, K: -1, Stop: "serve", LateLast: 2})
 	}
 	// F32 (known finding): a test name that contains ": " — the separator of the feedback lines.  The
 	// reference server's line "<name>: <message>" is split at the FIRST ": " by the runner's reader, the
